@@ -296,6 +296,11 @@ func H_C09_ids3() { vIDs(2) }
 
 func vIDs(extra int) {
 	vSchedFork(1)
+	if extra > 1 {
+		// three connections: only the connection goroutine's spawn order is explored
+		// (that is the one that separates the per-iteration copy from the loop variable)
+		vSchedFilter("(*github.com/jimlambrt/gldap.Server).Run$1")
+	}
 	v := vNewSrv()
 	var mu sync.Mutex
 	seen := map[string][]int{} // conn name (by message id) -> ConnectionIDs reported
@@ -315,10 +320,10 @@ func vIDs(extra int) {
 		for j := 0; j < nreq; j++ {
 			vConnFeed(nc, vWire(refEnvelope(int64(10*(i+1)+j), refDeleteOp(), nil)))
 		}
-		if vBool(fmt.Sprintf("idle%d", i)) {
+		if i < 2 && vBool(fmt.Sprintf("idle%d", i)) {
 			vConnFeedBlock(nc) // stays connected while later clients arrive
 		}
-		if vBool(fmt.Sprintf("acceptErrorBefore%d", i)) {
+		if i > 0 && i < 3-extra+1 && vBool(fmt.Sprintf("acceptErrorBefore%d", i)) {
 			vEnvAcceptTempErr() // e.g. out of descriptors: Accept fails once, then works again
 		}
 		vEnvAccept(nc)
